@@ -1,3 +1,63 @@
+import PicoProofs.EndToEnd
+import PicoProofs.DecRefineMap
 import PicoProofs.Tie
-import PicoModel.WellTyped
-/- C11: theorems are added as the proof modules land -/
+/-
+C11 — All 180 map codecs are faithful and protobuf-compatible.
+
+One generic development over (key kind, value kind); `map_table_expected` (regenerated from
+picowire/map.go on every run) shows that each of the 180 generated codecs is that one shape with
+its own pair of typed reader/writer methods.
+-/
+namespace Pico.Props
+open Pico Pico.Gen2
+
+/-- TIE: 12 × 15 codecs, one shape -/
+theorem C11_all_180_have_the_modelled_shape :
+    Tie.sameRows Gen.mapRows Tie.expectedMapRows = true ∧ Gen.mapExtraFuncs = [] := Tie.map_table_expected
+
+theorem C11_there_are_180 : Tie.expectedMapRows.length = 180 := by decide +kernel
+
+/-- encode: one entry `{1: key, 2: value}` per element in iteration order, zero key / zero value
+omitted inside the entry — for every key kind, value kind, map content and order -/
+theorem C11_encode_is_spec (k v : Scalar) (f : Nat) (es : List (Val × Val))
+    (h : es.all (fun e => scalarOk k e.1 && scalarOk v e.2) = true) :
+    mapEncode k v (f : Int) es = Spec.mapEntries k v f es := mapEncode_eq k v f es h
+
+/-- a message holding maps round-trips exactly: zero keys, zero values, NaN values (bit patterns),
+one or many entries, any entry order (instance of C03 — `wtMsg` demands distinct keys, which a Go
+map guarantees) -/
+theorem C11_roundtrip (S : Schema) (hS : S.ok) (id : Nat) (v : Val)
+    (hwt : wtMsg S true id v = true) (hsz : (Spec.specEnc S id v).length < 2 ^ 64) :
+    ∃ d, unmarshal S id (marshal S id v) (zeroMsg S id) = .ok (d, v) ∧ d.err = none :=
+  unmarshal_marshal S hS id v hwt hsz
+
+/-- decode of ANY input equals the specification: a missing key or value means the zero value,
+duplicate keys keep the last value (`mapInsert`), entries are independent of one another (the
+entry callback starts from fresh zero key/value), no entries leave the map nil (instance of C02) -/
+theorem C11_decode_is_spec (S : Schema) (hS : S.supported = true) (id : Nat) (data : Bytes) :
+    ∃ d m, unmarshal S id data (zeroMsg S id) = .ok (d, m) ∧
+      (d.err = none ↔ (Spec.specUnmarshal S id data (zeroMsg S id)).isSome) ∧
+      (d.err = none → Spec.specUnmarshal S id data (zeroMsg S id) = some m) :=
+  unmarshal_new_refines_spec S hS id data
+
+/-- the rules, read off the specification: a new key is appended, an existing key has its value
+overwritten in place (duplicate keys keep the last value) -/
+theorem C11_new_key_appended (es : List (Val × Val)) (key v : Val) (h : es.any (fun e => keyEq e.1 key) = false) :
+    mapInsert es key v keyEq = es ++ [(key, v)] := by simp [mapInsert, h]
+
+theorem C11_duplicate_key_keeps_last (es : List (Val × Val)) (key v1 v2 : Val)
+    (h : es.any (fun e => keyEq e.1 key) = false) (hk : keyEq key key = true) :
+    mapInsert (mapInsert es key v1 keyEq) key v2 keyEq = es ++ [(key, v2)] := by
+  rw [C11_new_key_appended es key v1 h]
+  have hany : (es ++ [(key, v1)]).any (fun e => keyEq e.1 key) = true := by simp [hk]
+  simp only [mapInsert, hany, ↓reduceIte, List.map_append, List.map_cons, List.map_nil, hk]
+  congr 1
+  have hall : ∀ e ∈ es, keyEq e.1 key = false := by
+    intro e he
+    have := List.any_eq_false.mp h e he
+    simpa using this
+  calc es.map (fun e => if keyEq e.1 key = true then (e.1, v2) else e) = es.map id :=
+        List.map_congr_left (fun e he => by simp [hall e he])
+    _ = es := List.map_id es
+
+end Pico.Props
